@@ -12,6 +12,7 @@
 package main
 
 import (
+	"crypto/sha256"
 	"encoding/json"
 	"flag"
 	"fmt"
@@ -19,6 +20,7 @@ import (
 	"os"
 	"regexp"
 	"runtime"
+	"runtime/pprof"
 	"sort"
 	"strconv"
 	"strings"
@@ -626,8 +628,8 @@ type sinkFn func(key string, h hist, step int, detail map[string]interface{})
 
 type stats struct {
 	polls, pollsDelivering, pollsCutAtExpunge, pollsFullWithExpunge int64
-	queries, wantZero, wantNonZero, renumbered                       int64
-	allowSurprise                                                    int64
+	queries, wantZero, wantNonZero, renumbered                      int64
+	allowSurprise                                                   int64
 }
 
 func (a *stats) add(b *stats) {
@@ -648,7 +650,21 @@ func safely(f func()) (p interface{}) {
 	return nil
 }
 
-func ints(l []int) string { return fmt.Sprint(l) }
+// lazy detail values: violation details are only rendered when the observation is kept (the
+// known EncodeSeqNum defect alone is observed in every second transition). A sink must call
+// resolve before the next step of the execution mutates what the closures refer to.
+type lazy func() interface{}
+
+func resolve(d map[string]interface{}) map[string]interface{} {
+	for k, v := range d {
+		if f, ok := v.(lazy); ok {
+			d[k] = f()
+		}
+	}
+	return d
+}
+
+func ints(l []int) lazy { return func() interface{} { return fmt.Sprint(l) } }
 
 func normUpd(kind byte, n int, id int, payload string) string {
 	switch kind {
@@ -730,14 +746,14 @@ func (w *worker) lockstep(h hist, checkFrom int, sink sinkFn, st *stats, vb io.W
 		check := step >= checkFrom
 		cur := hist{h.Init, h.Ev[:step+1]}
 		report := func(key string, d map[string]interface{}) {
-			d["history"] = cur.String()
+			d["history"] = lazy(func() interface{} { return cur.String() })
 			d["init"] = int(cur.Init)
-			d["events"] = cur.raw()
+			d["events"] = lazy(func() interface{} { return cur.raw() })
 			d["step"] = step + 1
-			d["event"] = e.String()
+			d["event"] = lazy(func() interface{} { return e.String() })
 			sink(key, cur, step+1, d)
 			if vb != nil {
-				b, _ := json.Marshal(d)
+				b, _ := json.Marshal(resolve(d))
 				fmt.Fprintf(vb, "  !! VIOLATION %s %s\n", key, b)
 			}
 		}
@@ -843,10 +859,13 @@ func (w *worker) lockstep(h hist, checkFrom int, sink sinkFn, st *stats, vb io.W
 				}
 			}
 			base := func() map[string]interface{} {
-				var raw []string
-				for _, u := range wire {
-					raw = append(raw, u.String())
-				}
+				raw := lazy(func() interface{} {
+					var raw []string
+					for _, u := range wire {
+						raw = append(raw, u.String())
+					}
+					return raw
+				})
 				return map[string]interface{}{"session": int(e.A), "command": pc.cmd, "wire_updates": raw, "model_updates": wantL,
 					"client_view_before": ints(viewBefore), "mailbox": ints(m.mbox)}
 			}
@@ -988,13 +1007,16 @@ func (w *worker) lockstep(h hist, checkFrom int, sink sinkFn, st *stats, vb io.W
 			}
 			st.queries += int64(2 * lim)
 			ctx := func() map[string]interface{} {
-				var p []string
-				for _, u := range ms.pending {
-					if !u.Skipped {
-						p = append(p, u.String())
+				pend := lazy(func() interface{} {
+					var p []string
+					for _, u := range ms.pending {
+						if !u.Skipped {
+							p = append(p, u.String())
+						}
 					}
-				}
-				return map[string]interface{}{"session": si, "mailbox": ints(m.mbox), "client_view": ints(ms.view), "pending": p}
+					return p
+				})
+				return map[string]interface{}{"session": si, "mailbox": ints(m.mbox), "client_view": ints(ms.view), "pending": pend}
 			}
 			var vbDec, vbEnc []string
 			encFlagged := map[int]bool{}
@@ -1013,7 +1035,8 @@ func (w *worker) lockstep(h hist, checkFrom int, sink sinkFn, st *stats, vb io.W
 				}
 				if int(dec[c]) != want {
 					d := ctx()
-					d["call"] = fmt.Sprintf("DecodeSeqNum(%d)", c)
+					c := c
+					d["call"] = lazy(func() interface{} { return fmt.Sprintf("DecodeSeqNum(%d)", c) })
 					d["got"], d["want"] = dec[c], want
 					switch {
 					case want == 0:
@@ -1042,7 +1065,8 @@ func (w *worker) lockstep(h hist, checkFrom int, sink sinkFn, st *stats, vb io.W
 				if int(enc[s]) != want {
 					encFlagged[s] = true
 					d := ctx()
-					d["call"] = fmt.Sprintf("EncodeSeqNum(%d)", s)
+					s := s
+					d["call"] = lazy(func() interface{} { return fmt.Sprintf("EncodeSeqNum(%d)", s) })
 					d["got"], d["want"] = enc[s], want
 					switch {
 					case want == 0 && inMultiAppendNotLast(ms, id):
@@ -1126,14 +1150,14 @@ func collect(key string, h hist, step int, detail map[string]interface{}) {
 	if c, ok := viols[key]; ok && !h.less(c.h) {
 		return
 	}
-	viols[key] = &cand{h: hist{h.Init, append([]event{}, h.Ev...)}, detail: detail}
+	viols[key] = &cand{h: hist{h.Init, append([]event{}, h.Ev...)}, detail: resolve(detail)}
 }
 
 // ---------------------------------------------------------------------------------------------
 // search
 
 type entry struct {
-	level  int8
+	level  int16
 	parent int32
 	evIdx  int16
 	ev     event
@@ -1141,70 +1165,66 @@ type entry struct {
 
 const nShards = 256
 
+// states are remembered by the first 128 bits of the SHA-256 of their canonical key
+type hkey [16]byte
+
+type freshEnt struct {
+	k  hkey
+	nt bool // some session has undelivered updates
+}
+
 type shard struct {
 	mu    sync.Mutex
-	m     map[string]entry
-	fresh []string
+	m     map[hkey]entry
+	fresh []freshEnt
+}
+
+func hashKey(k string) hkey {
+	s := sha256.Sum256([]byte(k))
+	var h hkey
+	copy(h[:], s[:16])
+	return h
 }
 
 var run *vk.Run
 
-func shardOf(k string) int {
-	var h uint32 = 2166136261
-	for i := 0; i < len(k); i++ {
-		h = (h ^ uint32(k[i])) * 16777619
-	}
-	return int(h % nShards)
+func shardOf(k hkey) int { return int(k[0]) % nShards }
+
+type bfsResult struct {
+	ran                       bool
+	bd                        bounds
+	depthBound                int
+	states, trans, nontrivial int64
+	depthReached              int
+	perLevel                  []int64
+	frontierEmpty             bool
+	frontierLeft              int
+	wall                      time.Duration
 }
 
-func main() {
-	freshFlag := flag.Bool("fresh-conns", false, "never reuse a server connection across histories (slower)")
-	depthFlag := flag.Int("depth", 0, "override the BFS depth bound")
-	nodedupFlag := flag.Int("nodedup-depth", -1, "override the depth of the pass without merging")
-	sessFlag := flag.Int("sessions", 0, "override the bound on simultaneously open sessions")
-	pendFlag := flag.Int("max-pending", -1, "override the bound on undelivered updates per session (0 = unbounded)")
-	run = vk.Start("C07", "model_checking")
-	if run.Replay != "" {
-		replay()
-		return
-	}
-	bd := bounds{maxN: 4, maxS: 2, maxPending: 0}
-	depth, ndDepth := 6, 4
-	if run.Thorough() {
-		bd.maxS = 3
-		depth, ndDepth = 8, 5
-	}
-	if *depthFlag > 0 {
-		depth = *depthFlag
-	}
-	if *nodedupFlag >= 0 {
-		ndDepth = *nodedupFlag
-	}
-	if *sessFlag > 0 {
-		bd.maxS = *sessFlag
-	}
-	if *pendFlag >= 0 {
-		bd.maxPending = *pendFlag
-	}
-	nw := runtime.GOMAXPROCS(0)
-	workers := make([]*worker, nw)
-	for i := range workers {
-		workers[i] = newWorker(*freshFlag)
-	}
-	t0 := time.Now()
-	var total stats
-	var totalMu sync.Mutex
+func (r bfsResult) coverage() map[string]interface{} {
+	return map[string]interface{}{"mailbox_size_max": r.bd.maxN, "open_sessions_max": r.bd.maxS, "pending_per_session_max(0=unbounded)": r.bd.maxPending,
+		"depth_bound": r.depthBound, "states": r.states, "transitions": r.trans, "depth_reached": r.depthReached, "new_states_per_depth": r.perLevel,
+		"frontier_exhausted": r.frontierEmpty, "frontier_left_at_depth_bound": r.frontierLeft, "wall_s": r.wall.Seconds()}
+}
 
-	// ---- BFS with merging ----
+// bfs: level-synchronous breadth-first search. Every transition (state representative, enabled
+// event) is executed on a fresh real tracker by replaying the representative's history; the oracle
+// is evaluated on the last step (all proper prefixes are representatives checked one level earlier).
+// The representative of a state is the smallest (parent index, event index) reaching it, so the
+// result does not depend on worker scheduling.
+func bfs(name string, bd bounds, depth int, workers []*worker, total *stats, totalMu *sync.Mutex) bfsResult {
+	t0 := time.Now()
+	nw := len(workers)
 	shards := make([]*shard, nShards)
 	for i := range shards {
-		shards[i] = &shard{m: map[string]entry{}}
+		shards[i] = &shard{m: map[hkey]entry{}}
 	}
 	var frontier []hist
 	var states, trans, nontrivial int64
 	for init := 0; init <= 3; init++ {
 		h := hist{Init: int8(init)}
-		k := modelOnly(h).key()
+		k := hashKey(modelOnly(h).key())
 		shards[shardOf(k)].m[k] = entry{}
 		frontier = append(frontier, h)
 		states++
@@ -1234,16 +1254,17 @@ func main() {
 						if diverged {
 							continue
 						}
-						k := m.key()
+						ks := m.key()
+						k := hashKey(ks)
 						sh := shards[shardOf(k)]
 						sh.mu.Lock()
 						old, ok := sh.m[k]
 						switch {
 						case !ok:
-							sh.m[k] = entry{int8(d + 1), int32(pi), int16(ei), e}
-							sh.fresh = append(sh.fresh, k)
+							sh.m[k] = entry{int16(d + 1), int32(pi), int16(ei), e}
+							sh.fresh = append(sh.fresh, freshEnt{k, strings.Contains(ks, ";p ")})
 						case int(old.level) == d+1 && (int32(pi) < old.parent || (int32(pi) == old.parent && int16(ei) < old.evIdx)):
-							sh.m[k] = entry{int8(d + 1), int32(pi), int16(ei), e}
+							sh.m[k] = entry{int16(d + 1), int32(pi), int16(ei), e}
 						}
 						sh.mu.Unlock()
 					}
@@ -1257,9 +1278,9 @@ func main() {
 		wg.Wait()
 		var ents []entry
 		for _, sh := range shards {
-			for _, k := range sh.fresh {
-				ents = append(ents, sh.m[k])
-				if strings.Contains(k, ";p ") {
+			for _, f := range sh.fresh {
+				ents = append(ents, sh.m[f.k])
+				if f.nt {
 					nontrivial++
 				}
 			}
@@ -1280,18 +1301,83 @@ func main() {
 		perLevel = append(perLevel, int64(len(nf)))
 		if len(nf) > 0 {
 			depthReached = d + 1
+			x := nf[len(nf)/2]
+			run.Sample("bfs-state-"+name, map[string]interface{}{"history": x.String(), "key": modelOnly(x).key()})
 		}
-		if len(nf) > 0 && len(nf)%7 == 0 {
-			run.Sample("bfs-state", map[string]interface{}{"history": nf[len(nf)/2].String(), "key": modelOnly(nf[len(nf)/2]).key()})
-		} else if len(nf) > 0 {
-			run.Sample("bfs-state", map[string]interface{}{"history": nf[len(nf)-1].String(), "key": modelOnly(nf[len(nf)-1]).key()})
-		}
-		fmt.Fprintf(os.Stderr, "bfs depth %d: new states=%d total=%d transitions=%d t=%s\n", d+1, len(nf), states, trans, time.Since(t0).Round(time.Millisecond))
+		fmt.Fprintf(os.Stderr, "bfs[%s] depth %d: new states=%d total=%d transitions=%d t=%s\n", name, d+1, len(nf), states, trans, time.Since(t0).Round(time.Millisecond))
 	}
-	frontierEmpty := len(frontier) == 0
-	shards = nil
-	bfsTrans := trans
-	tBFS := time.Since(t0)
+	return bfsResult{ran: true, bd: bd, depthBound: depth, states: states, trans: trans, nontrivial: nontrivial, depthReached: depthReached, perLevel: perLevel,
+		frontierEmpty: len(frontier) == 0, frontierLeft: len(frontier), wall: time.Since(t0)}
+}
+
+func main() {
+	freshFlag := flag.Bool("fresh-conns", false, "never reuse a server connection across histories (slower)")
+	depthFlag := flag.Int("depth", 0, "override the BFS depth bound")
+	nodedupFlag := flag.Int("nodedup-depth", -1, "override the depth of the pass without merging")
+	sessFlag := flag.Int("sessions", 0, "override the bound on simultaneously open sessions")
+	pendFlag := flag.Int("max-pending", -1, "override the bound on undelivered updates per session (0 = unbounded)")
+	profFlag := flag.String("cpuprofile", "", "write a CPU profile (engine tuning only)")
+	workersFlag := flag.Int("workers", 0, "worker goroutines (default: number of CPUs)")
+	closedFlag := flag.Int("closed-pending", -1, "bound on undelivered updates per session in the closed search (0 = skip that search)")
+	run = vk.Start("C07", "model_checking")
+	if run.Replay != "" {
+		replay()
+		return
+	}
+	bd := bounds{maxN: 4, maxS: 2, maxPending: 0}
+	depth, ndDepth, closedPending := 7, 4, 4
+	if run.Thorough() {
+		bd.maxS = 3
+		depth, ndDepth, closedPending = 8, 5, 4
+	}
+	if *closedFlag >= 0 {
+		closedPending = *closedFlag
+	}
+	if *depthFlag > 0 {
+		depth = *depthFlag
+	}
+	if *nodedupFlag >= 0 {
+		ndDepth = *nodedupFlag
+	}
+	if *sessFlag > 0 {
+		bd.maxS = *sessFlag
+	}
+	if *pendFlag >= 0 {
+		bd.maxPending = *pendFlag
+	}
+	if *profFlag != "" {
+		f, err := os.Create(*profFlag)
+		if err == nil {
+			pprof.StartCPUProfile(f)
+			defer pprof.StopCPUProfile()
+		}
+	}
+	nw := runtime.GOMAXPROCS(0)
+	if *workersFlag > 0 {
+		nw = *workersFlag
+	}
+	workers := make([]*worker, nw)
+	for i := range workers {
+		workers[i] = newWorker(*freshFlag)
+	}
+	ndWorkers := make([]*worker, nw)
+	for i := range ndWorkers {
+		ndWorkers[i] = newWorker(true)
+	}
+	t0 := time.Now()
+	var total stats
+	var totalMu sync.Mutex
+
+	// ---- BFS with merging ----
+	// (1) closed search: undelivered updates per session bounded, no depth bound: runs until the
+	//     frontier is empty; (2) depth-bounded search without a bound on undelivered updates.
+	var closed, deep bfsResult
+	if closedPending > 0 {
+		cb := bd
+		cb.maxPending = closedPending
+		closed = bfs("closed", cb, 1000, workers, &total, &totalMu)
+	}
+	deep = bfs("depth-bounded", bd, depth, workers, &total, &totalMu)
 
 	// ---- every history up to ndDepth, no merging ----
 	var ndCount int64
@@ -1361,7 +1447,7 @@ func main() {
 				totalMu.Lock()
 				total.add(&st)
 				totalMu.Unlock()
-			}(workers[wi])
+			}(ndWorkers[wi])
 		}
 		wg.Wait()
 		fmt.Fprintf(os.Stderr, "no-merge pass depth<=%d: histories=%d t=%s\n", ndDepth, ndCount, time.Since(t0).Round(time.Millisecond))
@@ -1386,7 +1472,7 @@ func main() {
 		total.add(&st)
 	}
 	var conns int64
-	for _, w := range workers {
+	for _, w := range append(append([]*worker{}, workers...), ndWorkers...) {
 		conns += w.conns
 		w.close()
 	}
@@ -1430,15 +1516,21 @@ func main() {
 	}
 	vw.close()
 
-	run.States, run.Trans, run.Traces = states, bfsTrans, bfsTrans+ndCount+matrix
-	run.AddEvals(bfsTrans + ndCount + matrix)
-	run.NontrivialN(nontrivial)
+	big := deep
+	if closed.states > deep.states {
+		big = closed
+	}
+	allTrans := closed.trans + deep.trans
+	run.States, run.Trans, run.Traces = big.states, big.trans, allTrans+ndCount+matrix
+	run.AddEvals(allTrans + ndCount + matrix)
+	run.NontrivialN(big.nontrivial)
 	run.Set("bounds", map[string]interface{}{"mailbox_size_max": bd.maxN, "initial_sizes": "0..3", "open_sessions_max": bd.maxS,
-		"bfs_depth": depth, "no_merge_depth": ndDepth, "pending_per_session_max(0=unbounded)": bd.maxPending})
-	run.Set("bfs_depth_reached", int64(depthReached))
-	run.Set("bfs_new_states_per_depth", perLevel)
-	run.Set("bfs_frontier_exhausted", frontierEmpty)
-	run.Set("bfs_wall_s", tBFS.Seconds())
+		"depth_bounded_search_depth": depth, "closed_search_pending_per_session_max": closedPending, "no_merge_depth": ndDepth})
+	run.Set("bfs_depth_bounded", deep.coverage())
+	if closed.ran {
+		run.Set("bfs_closed", closed.coverage())
+	}
+	run.Set("bfs_transitions_both_searches", allTrans)
 	run.Set("no_merge_histories", ndCount)
 	run.Set("command_matrix_histories", matrix)
 	run.Set("server_connections_opened", conns)
@@ -1453,18 +1545,29 @@ func main() {
 	run.Set("translation_want_renumbered", total.renumbered)
 	run.Set("violating_observations_total", atomic.LoadInt64(&nViol))
 	run.Rule = "breadth-first search over histories of {Append(1..3), Expunge(i), MsgFlags(i,source), MailboxFlags, NewSession, Close(s), Poll(s,allowExpunge)} on the real MailboxTracker/SessionTracker (polls through a real Conn: NOOP / FETCH), merged on the canonical reference-model state (mailbox, per open session view + undelivered updates; ids renamed by rank, sessions sorted); every transition re-executed from a fresh tracker; plus every history up to the no-merge depth without merging; plus a command matrix (NOOP, CHECK, FETCH, STORE, SEARCH, UID variants) for the EXPUNGE permission. non-trivial = distinct states in which some session has undelivered updates"
-	// exhaustive only when the frontier emptied under the configured bounds
-	run.Exhaustive = frontierEmpty
+	// exhaustive only when a frontier emptied under the configured bounds (the closed search)
+	run.Exhaustive = (closed.ran && closed.frontierEmpty) || deep.frontierEmpty
 	run.Assume("DecodeSeqNum of numbers beyond the client's view and EncodeSeqNum of numbers beyond the mailbox are called (must not panic) but their value is unconstrained: the documentation does not define them")
 	run.Assume("a session's client view starts as the mailbox at NewSession time (what SELECT reported)")
 	run.Assume("consecutive EXISTS updates may be coalesced by an implementation: delivered and expected update lists are compared after collapsing runs of EXISTS")
 	run.Assume("the tracker is driven sequentially (no concurrent Queue*/Poll); concurrency is C14's subject")
 	run.Assume("server connections are reused across histories unless --fresh-conns is given (a Conn holds no tracker state; the UpdateWriter is created per poll); each is retired after 512 histories")
-	if !frontierEmpty {
-		run.Assume(fmt.Sprintf("the state space is unbounded (undelivered flag updates accumulate): the search stops at depth %d with %d states on the frontier, so exhaustive=false; every history up to that depth is covered modulo merging", depth, len(frontier)))
+	if closed.ran && closed.frontierEmpty {
+		run.Assume(fmt.Sprintf("exhaustive=true refers to the closed search: mailbox <= %d messages (initial 0..3), <= %d simultaneously open sessions, <= %d undelivered updates per session, no depth bound; its frontier emptied at depth %d", closed.bd.maxN, closed.bd.maxS, closed.bd.maxPending, closed.depthReached))
 	}
-	fmt.Printf("C07 bounds: mailbox<=%d initial 0..3 sessions<=%d depth<=%d no-merge depth<=%d pending<=%d | states=%d transitions=%d depth_reached=%d frontier_exhausted=%v no-merge histories=%d matrix=%d polls=%d queries=%d\n",
-		bd.maxN, bd.maxS, depth, ndDepth, bd.maxPending, states, bfsTrans, depthReached, frontierEmpty, ndCount, matrix, total.polls, total.queries)
+	if !deep.frontierEmpty {
+		run.Assume(fmt.Sprintf("without a bound on undelivered updates the state space is infinite (flag updates accumulate): the depth-bounded search stops at depth %d with %d states on its frontier; every history up to that depth is covered modulo merging", depth, deep.frontierLeft))
+	}
+	for _, r := range []bfsResult{closed, deep} {
+		if !r.ran {
+			continue
+		}
+		fmt.Printf("C07 bfs: mailbox<=%d initial 0..3 sessions<=%d pending/session<=%d (0=unbounded) depth<=%d | states=%d transitions=%d depth_reached=%d frontier_exhausted=%v (left %d) wall=%.1fs\n",
+			r.bd.maxN, r.bd.maxS, r.bd.maxPending, r.depthBound, r.states, r.trans, r.depthReached, r.frontierEmpty, r.frontierLeft, r.wall.Seconds())
+	}
+	fmt.Printf("C07 no-merge pass: depth<=%d histories=%d (fresh connections) | command matrix=%d | polls on the wire=%d translation queries=%d connections=%d\n",
+		ndDepth, ndCount, matrix, total.polls, total.queries, conns)
+	pprof.StopCPUProfile()
 	run.Finish()
 }
 
@@ -1508,7 +1611,7 @@ func replay() {
 		if key == f.Key {
 			hit = true
 		}
-		run.Violation(key, d)
+		run.Violation(key, resolve(d))
 	}, &st, os.Stdout)
 	w.close()
 	fmt.Printf("stored violation reproduced: %v\n", hit)
